@@ -53,6 +53,7 @@ type rosterOp struct {
 	v      int
 	batch  int
 	reps   []int
+	null   bool // commit: Null instead of an (empty) array of REP numbers
 	signer string
 }
 
@@ -79,6 +80,7 @@ func NewRosterDriver() *RosterDriver {
 		rosterOp{kind: "addBadKey", v: 0, batch: 2, signer: "C"},
 		rosterOp{kind: "addBadCid", v: 0, batch: 1, signer: "C"},
 		rosterOp{kind: "commit", reps: []int{}, signer: "C"},
+		rosterOp{kind: "commit", null: true, signer: "C"},
 		rosterOp{kind: "commit", reps: []int{1}, signer: "C"},
 		rosterOp{kind: "commit", reps: []int{2, 1}, signer: "C"},
 		rosterOp{kind: "commit", reps: []int{1}, signer: "S"},
@@ -111,6 +113,9 @@ func (d *RosterDriver) Init(*World) Model { return &rosterModel{} }
 func (d *RosterDriver) NumOps() int       { return len(d.ops) }
 func (d *RosterDriver) OpName(_ *Node, i int) string {
 	o := d.ops[i]
+	if o.kind == "commit" && o.null {
+		return fmt.Sprintf("commitContainerListUpdate(null) by %s", o.signer)
+	}
 	if o.kind == "commit" {
 		return fmt.Sprintf("commitContainerListUpdate(%v) by %s", o.reps, o.signer)
 	}
@@ -178,6 +183,9 @@ func (d *RosterDriver) Step(x *Exec, n *Node, i int) StepResult {
 			rs = []any{}
 		}
 		scr = Script(h, "commitContainerListUpdate", d.cid, rs)
+		if o.null {
+			scr = Script(h, "commitContainerListUpdate", d.cid, nil)
+		}
 		if expHalt {
 			nm.committed = m.pending
 			nm.pending = [3][]int{}
